@@ -44,8 +44,9 @@ KTable(nm, rows) ==
     [cols |-> IF nm.rev THEN <<nm.p, nm.b, nm.a>> ELSE <<nm.a, nm.b, nm.p>>,
      rows |-> [i \in 1..Len(rows) |-> [cc \in {nm.a, nm.b, nm.p} |-> IF cc = nm.a THEN rows[i].a ELSE IF cc = nm.b THEN rows[i].b ELSE VInt(i)]]]
 KBys(nm) == {<<nm.a>>, <<nm.b>>, <<nm.a, nm.b>>, <<nm.b, nm.a>>, <<nm.p>>, <<nm.p, nm.a>>}
-KeyCases == UNION {{[op |-> "regroup", nm |-> i, t |-> KTable(Nm(i), r), by |-> by, form |-> f, idcol |-> Nm(i).p, grp |-> Nm(i).grp]
-                      : r \in KRows, by \in {b \in KBys(Nm(i)) : Nm(i).grp \notin Range(b)}, f \in {"names", "list"}} : i \in NameIds}
+\* a seed is cheap to enumerate (the initial states); the case is built from it, judged and printed by Next (in parallel)
+KeySeeds(ids) == UNION {[fam : {"keys"}, nm : {i}, r : KRows, by : {b \in KBys(Nm(i)) : Nm(i).grp \notin Range(b)}, form : {"names", "list"}] : i \in ids}
+KeyCase(s) == [op |-> "regroup", nm |-> s.nm, t |-> KTable(Nm(s.nm), s.r), by |-> s.by, form |-> s.form, idcol |-> Nm(s.nm).p, grp |-> Nm(s.nm).grp]
 
 \* ---- family "pivot" ------------------------------------------------------------------------------
 YU(nm) == {VStr(s) : s \in nm.strs} \cup nm.vals \cup (IF Rich THEN {VInt(1), VFlt(1, 1), VFlt(3, 2), None} ELSE {})
@@ -62,18 +63,19 @@ XSels(nm) == {<<"name", <<nm.a>>>>, <<"list", <<nm.a>>>>, <<"list", <<nm.a, nm.b
                  \cup (IF Rich THEN {<<"name", <<nm.b>>>>, <<"list", <<nm.b, nm.a>>>>} ELSE {})
 \* duplicates of an (x, y) cell are aggregated: every aggregation there; unique cells are pivoted with last (and unpivoted)
 Aggs(t, xs, y) == IF UniqueXY(t, xs, y) THEN {"last"} ELSE {"last", "list", "len", "first"}
-PivotCasesOf(i) ==
-    LET nm == Nm(i) IN
-    UNION {LET t == PTable(nm, r) IN
-           IF LabelClash(t, xs[2], nm.y) THEN {}
-           ELSE {[op |-> "pivot", nm |-> i, t |-> t, x |-> xs[2], form |-> xs[1], y |-> nm.y, z |-> nm.z, agg |-> g] : g \in Aggs(t, xs[2], nm.y)}
-           : r \in PRows(nm), xs \in XSels(nm)}
-PivotCases == UNION {PivotCasesOf(i) : i \in NameIds}
-PivotDomain == PivotCases          \* (cases with a label clash are outside the domain and left out above)
+PivotSeeds(ids) == UNION {[fam : {"pivot"}, nm : {i}, r : PRows(Nm(i)), xs : XSels(Nm(i))] : i \in ids}
+PivotCase(s, g) == LET nm == Nm(s.nm) IN
+    [op |-> "pivot", nm |-> s.nm, t |-> PTable(nm, s.r), x |-> s.xs[2], form |-> s.xs[1], y |-> nm.y, z |-> nm.z, agg |-> g]
 
-Init == c \in (IF Fam = "keys" THEN KeyCases ELSE IF Fam = "pivot" THEN PivotDomain ELSE KeyCases \cup PivotDomain) /\ done = FALSE
-Next == done = FALSE /\ done' = TRUE /\ UNCHANGED c
-NextGen == Next /\ PrintT(ToJson(c))
+\* c = the seed; done = "" until the case is built, then "go" (keys) or the aggregation (pivot).  Seeds whose table has a
+\* label clash are outside the domain and have no successor.
+Case == IF c.fam = "keys" THEN KeyCase(c) ELSE PivotCase(c, done)
+Init == c \in (IF Fam = "keys" THEN KeySeeds(NameIds) ELSE IF Fam = "pivot" THEN PivotSeeds(NameIds) ELSE KeySeeds(NameIds) \cup PivotSeeds(NameIds)) /\ done = ""
+Next == /\ done = ""
+        /\ IF c.fam = "keys" THEN done' = "go"
+           ELSE LET k == PivotCase(c, "last") IN ~LabelClash(k.t, k.x, k.y) /\ done' \in Aggs(k.t, k.x, k.y)
+        /\ UNCHANGED c
+NextGen == Next /\ PrintT(ToJson(IF c.fam = "keys" THEN KeyCase(c) ELSE PivotCase(c, done')))
 
 \* ---- constructive level ---------------------------------------------------------------------------
 CGroupby(t, by, grp) ==
@@ -111,16 +113,16 @@ CUnpivotSub(t, pv, xs, form, y, z) ==
     CUnpivotBy(LAMBDA cc : IF form = "name" THEN ~IsSubstr(cc, xs[1]) ELSE cc \notin Range(xs), t, pv, xs, y, z)
 
 ModelCmp(u, by) == [p \in 1..(Len(u.rows) - 1) |-> [k \in 1..Len(by) |-> CmpModel(u.rows[p][by[k]], u.rows[p + 1][by[k]])]]
-ListbyLaw == done => (c.op = "regroup" => ListbyVerdict(c.t, c.by, CListby(c.t, c.by)) = "")
-UnlistLaw == done => ((c.op = "regroup" /\ NRows(c.t) > 0) =>
-                LET u == CUnlist(CListby(c.t, c.by), c.by) IN UnlistVerdict(c.t, c.by, u, ModelCmp(u, c.by), c.idcol) = "")
-GroupbyLaw == done => (c.op = "regroup" => GroupbyVerdict(c.t, c.by, c.grp, CGroupby(c.t, c.by, c.grp)) = "")
-UngroupLaw == done => ((c.op = "regroup" /\ NRows(c.t) > 0) =>
-                UngroupVerdict(c.t, c.by, [cols |-> c.t.cols, rows |-> CUngroup(CGroupby(c.t, c.by, c.grp), c.by, c.grp)]) = "")
-PivotLaw == done => (c.op = "pivot" => PivotVerdict(c.t, c.x, c.y, c.z, c.agg, CPivot(c.t, c.x, c.y, c.z, c.agg)) = "")
-UnpivotLaw == done => ((c.op = "pivot" /\ c.agg = "last") =>
-                UnpivotVerdict(c.t, c.x, c.y, c.z, CUnpivot(c.t, CPivot(c.t, c.x, c.y, c.z, "last"), c.x, c.y, c.z)) = "")
+ListbyLaw == done # "" => LET k == Case IN (k.op = "regroup" => ListbyVerdict(k.t, k.by, CListby(k.t, k.by)) = "")
+UnlistLaw == done # "" => LET k == Case IN ((k.op = "regroup" /\ NRows(k.t) > 0) =>
+                LET u == CUnlist(CListby(k.t, k.by), k.by) IN UnlistVerdict(k.t, k.by, u, ModelCmp(u, k.by), k.idcol) = "")
+GroupbyLaw == done # "" => LET k == Case IN (k.op = "regroup" => GroupbyVerdict(k.t, k.by, k.grp, CGroupby(k.t, k.by, k.grp)) = "")
+UngroupLaw == done # "" => LET k == Case IN ((k.op = "regroup" /\ NRows(k.t) > 0) =>
+                UngroupVerdict(k.t, k.by, [cols |-> k.t.cols, rows |-> CUngroup(CGroupby(k.t, k.by, k.grp), k.by, k.grp)]) = "")
+PivotLaw == done # "" => LET k == Case IN (k.op = "pivot" => PivotVerdict(k.t, k.x, k.y, k.z, k.agg, CPivot(k.t, k.x, k.y, k.z, k.agg)) = "")
+UnpivotLaw == done # "" => LET k == Case IN ((k.op = "pivot" /\ k.agg = "last") =>
+                UnpivotVerdict(k.t, k.x, k.y, k.z, CUnpivot(k.t, CPivot(k.t, k.x, k.y, k.z, "last"), k.x, k.y, k.z)) = "")
 \* expected to FAIL: the substring mechanism loses the rows of a label that occurs inside the name of the x column
-SubLaw == done => ((c.op = "pivot" /\ c.agg = "last") =>
-                UnpivotVerdict(c.t, c.x, c.y, c.z, CUnpivotSub(c.t, CPivot(c.t, c.x, c.y, c.z, "last"), c.x, c.form, c.y, c.z)) = "")
+SubLaw == done # "" => LET k == Case IN ((k.op = "pivot" /\ k.agg = "last") =>
+                UnpivotVerdict(k.t, k.x, k.y, k.z, CUnpivotSub(k.t, CPivot(k.t, k.x, k.y, k.z, "last"), k.x, k.form, k.y, k.z)) = "")
 =============================================================================
